@@ -111,7 +111,10 @@ def build_asset(a, nodes, tz=None):
         else:
             kw[k] = v
     if node_names is not None and typ != "ScaledAsset":
-        nn = [nodes.setdefault(n, Node(n)) for n in node_names]
+        if a.get("_fresh_nodes"):   # node objects of its own (same names): assets built in different places, or loaded from JSON
+            nn = [Node(n) for n in node_names]
+        else:
+            nn = [nodes.setdefault(n, Node(n)) for n in node_names]
         if typ in ("Storage", "SimpleContract", "Contract", "OrderBook") and len(nn) == 1:
             kw["nodes"] = nn[0]
         else:
